@@ -596,6 +596,7 @@ class AsyncClient(base_client.BaseClient):
             self.namespaces = {}
             self.connected = False
         self.callbacks = {}
+        self.ack_counters = {}
         self._binary_packet = None
         self.sid = None
         if will_reconnect and not self._reconnect_task:
